@@ -444,6 +444,14 @@ func (ev *Eval) ident(name string) *Value {
 		if v, ok := ev.v.entryArgs[name]; ok && ev.fn == ev.v.top {
 			return v
 		}
+		// a local that was not (yet) declared on this path: its zero value
+		for _, b := range ev.fn.Blocks {
+			for _, ins := range b.Instrs {
+				if a, ok := ins.(*ssa.Alloc); ok && a.Comment == name {
+					return zeroValue(a.Type().(*types.Pointer).Elem())
+				}
+			}
+		}
 	}
 	if g, ok := ev.state().ghost[name]; ok {
 		return g
@@ -718,6 +726,24 @@ func (ev *Eval) call(e *Expr) *Value {
 		// ref(p): the integer address of a pointer value
 		x := ev.eval(e.Args[0])
 		return scalar(specInt, x.L[0])
+	case "running":
+		// running(c): a goroutine whose last action is close(c) was started and c has not been received from since
+		ch := ev.eval(e.Args[0])
+		return scalar(specBool, Select(ev.state().heapArr("chan#running", runningSort), ch.term()))
+	case "atgo":
+		// atgo(g): value of ghost variable g when the (last) go statement of this function executed
+		if e.Args[0].Op != "id" {
+			ev.fail("atgo(<ghost variable>)")
+		}
+		if g := ev.state().ghost["$atgo!"+e.Args[0].Name]; g != nil {
+			return g
+		}
+		return ev.eval(e.Args[0])
+	case "gocount":
+		if g := ev.state().ghost["$gocount"]; g != nil {
+			return scalar(specInt, g.term())
+		}
+		return scalar(specInt, Int(0))
 	case "implements":
 		x := ev.eval(e.Args[0])
 		if !isIface(x.T) || e.Args[1].Op != "str" {
